@@ -378,3 +378,72 @@ fn parse_flat_las5_n19() { parse_flat(5, 19); }
 #[kani::proof]
 #[kani::unwind(66)]
 fn parse_flat_las6_n41() { parse_flat(6, 41); }
+
+// ---- TEMP experiments ----
+static mut SCRIPT: [u32; 12] = [0; 12];
+static mut SCRIPT_POS: usize = 0;
+fn script_read_bool<'a>(_bs: &mut Bitstream<'a>) -> jxl_bitstream::BitstreamResult<bool> where 'a: 'a {
+    unsafe {
+        let v = SCRIPT[SCRIPT_POS];
+        SCRIPT_POS += 1;
+        Ok(v & 1 != 0)
+    }
+}
+fn script_read_bits<'a>(_bs: &mut Bitstream<'a>, n: usize) -> jxl_bitstream::BitstreamResult<u32> where 'a: 'a {
+    unsafe {
+        let v = SCRIPT[SCRIPT_POS];
+        SCRIPT_POS += 1;
+        Ok(if n >= 32 { v } else { v & ((1u32 << n) - 1) })
+    }
+}
+#[kani::proof]
+#[kani::stub(jxl_bitstream::Bitstream::read_bool, script_read_bool)]
+#[kani::stub(jxl_bitstream::Bitstream::read_bits, script_read_bits)]
+#[kani::unwind(34)]
+fn exp_script_unary() {
+    let n: u32 = kani::any();
+    let low: u32 = kani::any();
+    kani::assume(n <= 7);
+    unsafe { SCRIPT = [1, 0, 1, n, low, 0, 0, 0, 0, 0, 0, 0]; SCRIPT_POS = 0; }
+    let data = [0u8; 1];
+    let mut bs = Bitstream::new(&data);
+    let r = Histogram::parse(&mut bs, 5);
+    let val = (1u32 << n) + (low & ((1 << n) - 1));
+    match &r {
+        Err(e) => assert!(val >= 32),
+        Ok(h) => {
+            assert!(val < 32);
+            assert!(unsafe { SCRIPT_POS } == 5);
+            assert!(h.single_symbol() == Some(val), "[C04] single symbol is the transmitted one");
+            check_table(h, 5, &|i| if i == val as usize { 4096 } else { 0 });
+        }
+    }
+}
+
+#[kani::proof]
+#[kani::stub(jxl_bitstream::Bitstream::read_bool, script_read_bool)]
+#[kani::stub(jxl_bitstream::Bitstream::read_bits, script_read_bits)]
+#[kani::unwind(34)]
+fn exp_script_binary() {
+    let n0: u32 = kani::any();
+    let low0: u32 = kani::any();
+    let n1: u32 = kani::any();
+    let low1: u32 = kani::any();
+    let prob: u32 = kani::any();
+    kani::assume(n0 <= 7 && n1 <= 7 && prob < 4096);
+    unsafe { SCRIPT = [1, 1, 1, n0, low0, 1, n1, low1, prob, 0, 0, 0]; SCRIPT_POS = 0; }
+    let data = [0u8; 1];
+    let mut bs = Bitstream::new(&data);
+    let r = Histogram::parse(&mut bs, 5);
+    let v0 = (1u32 << n0) + (low0 & ((1 << n0) - 1));
+    let v1 = (1u32 << n1) + (low1 & ((1 << n1) - 1));
+    let valid = v0 != v1 && v0 < 32 && v1 < 32;
+    match &r {
+        Err(e) => assert!(!valid),
+        Ok(h) => {
+            assert!(valid);
+            assert!(unsafe { SCRIPT_POS } == 9);
+            check_table(h, 5, &|i| if i == v0 as usize { prob } else if i == v1 as usize { 4096 - prob } else { 0 });
+        }
+    }
+}
